@@ -372,13 +372,18 @@ def _swallowing_exits(tree):
             for m in c.body:
                 if isinstance(m, ast.FunctionDef) and m.name == "__exit__":
                     bad = [r for r in walk_func(m) if isinstance(r, ast.Return) and not (r.value is None or (isinstance(r.value, ast.Constant) and not r.value.value))]
+                    # an __exit__ that looks at the exception it is given decides about that exception on purpose (an error
+                    # handler written as a context manager); one that returns a value without looking cannot have meant to
+                    exc = {a.arg for a in m.args.args[1:]}
+                    if any(isinstance(n, ast.Name) and n.id in exc for n in walk_func(m)):
+                        bad = []
                     out.append((c, m, bad))
     return out
 
 
 @rule("C13.exit-never-swallows", min_instances=1, props=["C05"])
 def exit_never_swallows(ctx):
-    """no context manager defined in the package can swallow an exception: every __exit__ returns None / False, so an exception raised inside `with` (user code of a def, a caller body) propagates unchanged"""
+    """no context manager defined in the package swallows an exception by accident: an __exit__ that does not look at the exception it is given returns None / False, so an exception raised inside `with` (user code of a def, a caller body) propagates unchanged"""
     db = ctx.db
     ex = _swallowing_exits(ast.parse(_EXIT_EXAMPLE))
     ctx.require(len(ex) == 2 and len(ex[0][2]) == 1 and not ex[1][2], "self-example of the __exit__ matcher no longer matches")
